@@ -223,6 +223,14 @@ TEMPLATES = ("T1", "T2", "T3", "T4", "T5", "T6", "T7", "T8", "T9", "T10")
 # ---------------------------------------------------------------------------- random DAGs
 
 def gen_dag(rng, sc):
+    for _ in range(6):
+        prog, outs = _gen_dag(rng, sc)
+        if prog is not None:
+            break
+    return prog, outs
+
+
+def _gen_dag(rng, sc):
     rank = len(sc["shape"])
     S = tuple(sc["shape"])
     pool = ["a", "b"] + (["a2"] if sc.get("two") else []) + (["c"] if rng.random() < 0.3 else [])
@@ -239,44 +247,126 @@ def gen_dag(rng, sc):
         pool.append(st["out"])
         return st["out"]
 
-    def pick(full=False):
-        # favour recent nodes, but any node may be taken again (sharing)
-        cand = [n for n in pool if shp[n] == S] if full else pool
+    tainted = {"a", "a2"}  # nodes that depend on a random array
+
+    def pick(full=False, det=None):
+        # favour recent nodes, but any node may be taken again (sharing); det=True: deterministic nodes only, det=False: nodes
+        # that depend on the random array
+        cand = [n for n in pool if (not full or shp[n] == S) and (det is None or (n not in tainted) == det)]
+        if not cand:
+            cand = [n for n in pool if (not full or shp[n] == S)]
         return cand[-1 - min(int(rng.expovariate(0.7)), len(cand) - 1)] if rng.random() < 0.6 else rng.choice(cand)
 
-    for _ in range(rng.randint(4, 9)):
+    def elemwise(det1, det2):
         r = rng.random()
-        if r < 0.30:
-            u = pick()
-            new("binc", [u], shp[u], fn=rng.choice(BIN_FNS), c=float(rng.choice([0.5, 1.0, 2.0, 3.0, -1.5])), side=rng.choice("lr"))
-        elif r < 0.60:
-            u, v = pick(), pick()
-            new("bin", [u, v], np.broadcast_shapes(shp[u], shp[v]), fn=rng.choice(BIN_FNS))
+        if r < 0.35:
+            u = pick(det=det1)
+            o = new("binc", [u], shp[u], fn=rng.choice(BIN_FNS), c=float(rng.choice([0.5, 1.0, 2.0, 3.0, -1.5])), side=rng.choice("lr"))
         elif r < 0.75:
-            u = pick()
-            new("un", [u], shp[u], fn=rng.choice(UN_FNS))
-        elif r < 0.80:
-            u, v = pick(), pick()
-            new("where", [u, v], np.broadcast_shapes(shp[u], shp[v]), thr=float(rng.choice([0.0, 0.5, 2.0])))
-        elif r < 0.86:
-            new("flip", [pick(True)], S, axis=rng.randrange(rank))
-        elif r < 0.91:
-            new("rechunk", [pick(True)], S, chunks=_alt_chunks(sc["chunks"]))
-        elif r < 0.96:
-            ax = rng.randrange(rank)
-            new("red", [pick(True)], tuple(1 if i == ax else n for i, n in enumerate(S)), fn=rng.choice(["sum", "max", "mean"]), axis=ax)
+            u, v = pick(det=det1), pick(det=det2)
+            if det1 is False and v not in tainted and v not in ("b", "c") and rng.random() < 0.6:
+                # the deterministic operand enters through a fresh single-consumer node: the random array and the consumer of the
+                # (possibly shared) deterministic chain then sit in sibling branches of one group
+                v = new("binc", [v], shp[v], fn=rng.choice(INNER_OPS), c=float(rng.choice([2.0, 3.0, 0.5])), side=rng.choice("lr"))
+            if rng.random() < 0.5:
+                u, v = v, u
+            o = new("bin", [u, v], np.broadcast_shapes(shp[u], shp[v]), fn=rng.choice(BIN_FNS))
+        elif r < 0.92:
+            u = pick(det=det1)
+            o = new("un", [u], shp[u], fn=rng.choice(UN_FNS))
         else:
-            new("catslice", [pick(True), pick(True)], S, axis=rng.randrange(rank))
+            u, v = pick(det=det1), pick(det=det2)
+            o = new("where", [u, v], np.broadcast_shapes(shp[u], shp[v]), thr=float(rng.choice([0.0, 0.5, 2.0])))
+        if any(x in tainted for x in prog[-1]["args"]):
+            tainted.add(o)
+
+    def shared_det():
+        # deterministic full-shape nodes that are themselves chains (an operand that is not a leaf) and feed, directly or through
+        # further deterministic nodes, a node that depends on the random array: as a second consumer's operand such a node becomes
+        # a fused group of its own that is substituted into the random array's group
+        feeds = set(tainted)
+        for st in reversed(prog):
+            if st["out"] in feeds:
+                feeds |= set(st["args"])
+        out = []
+        for st in prog:
+            n = st["out"]
+            if n in tainted or shp[n] != S or n not in feeds:
+                continue
+            if any(x not in ("a", "a2", "b", "c") for x in st["args"]):
+                out.append(n)
+        return out
+
+    def barrier():
+        r = rng.random()
+        sd = shared_det()
+        u = rng.choice(sd) if sd and rng.random() < 0.7 else pick(True, det=rng.choice([True, True, None]))
+        if r < 0.3:
+            o = new("flip", [u], S, axis=rng.randrange(rank))
+        elif r < 0.55:
+            o = new("rechunk", [u], S, chunks=_alt_chunks(sc["chunks"]))
+        elif r < 0.8:
+            ax = rng.randrange(rank)
+            o = new("red", [u], tuple(1 if i == ax else n for i, n in enumerate(S)), fn=rng.choice(["sum", "max", "mean"]), axis=ax)
+        else:
+            o = new("catslice", [u, pick(True)], S, axis=rng.randrange(rank))
+        if any(x in tainted for x in prog[-1]["args"]):
+            tainted.add(o)
+
+    # phases: deterministic chains (candidates for sharing) -> nodes mixing the random array with them -> barriers (second
+    # consumers) -> more mixing; within a phase operands are drawn at random
+    for _ in range(rng.randint(2, 4)):
+        elemwise(True, True)
+    motif = None
+    if rng.random() < 0.7:
+        # seed the motif: the deepest deterministic chain d enters the random array's group through a fresh node e = d o const
+        d = [n for n in pool if n not in tainted and n not in ("b", "c") and shp[n] == S][-1]
+        e = new("binc", [d], S, fn=rng.choice(INNER_OPS), c=float(rng.choice([2.0, 3.0, 0.5])), side=rng.choice("lr"))
+        p = pick(True, det=False)
+        y = new("bin", [p, e] if rng.random() < 0.5 else [e, p], S, fn=rng.choice(BIN_FNS))
+        tainted.add(y)
+        motif = d
+    for _ in range(rng.randint(0 if motif else 1, 3)):
+        elemwise(False, rng.choice([True, True, None]))
+    if motif and rng.random() < 0.5:
+        # a barrier over the shared chain, combined with the random array's branch again
+        r = rng.random()
+        if r < 0.35:
+            f = new("flip", [motif], S, axis=rng.randrange(rank))
+        elif r < 0.7:
+            f = new("rechunk", [motif], S, chunks=_alt_chunks(sc["chunks"]))
+        else:
+            ax = rng.randrange(rank)
+            f = new("red", [motif], tuple(1 if i == ax else n for i, n in enumerate(S)), fn=rng.choice(["sum", "max", "mean"]), axis=ax)
+        y = new("bin", [pick(True, det=False), f], S, fn=rng.choice(BIN_FNS))
+        tainted.add(y)
+        motif = None if rng.random() < 0.6 else motif
+    for _ in range(rng.randint(0, 2)):
+        barrier()
+    for _ in range(rng.randint(0, 3)):
+        elemwise(rng.choice([False, None]), None)
     full = [n for n in pool if shp[n] == S and n not in ("a", "a2", "b", "c")]
-    if not full:
+    deep = [n for n in full if n in tainted]
+    if not deep:
         return None, None
-    n_out = rng.choice([1, 2, 2, 3])
-    outs = []
-    for _ in range(n_out):
-        o = rng.choice(full[-4:]) if rng.random() < 0.7 else rng.choice(full)
+    # outputs: a deep node that depends on the random array first; the further ones preferably deterministic chains that feed it
+    # (a chain with two consumers, one of them a barrier / a second output, is what makes the fusion pass substitute a group
+    # into a group)
+    consumed = {a for st in prog for a in st["args"]}
+    shared = shared_det() * 2 + [n for n in full if n in consumed]
+    n_out = rng.choice([1, 2, 2, 2, 3])
+    outs = [deep[-1] if rng.random() < 0.7 else rng.choice(deep)]
+    if motif and n_out == 1 and rng.random() < 0.7:
+        n_out = 2
+    for q in range(n_out - 1):
+        o = rng.choice(shared) if shared and rng.random() < 0.8 else rng.choice(full)
+        if q == 0 and motif and rng.random() < 0.8:
+            o = motif
         if o not in outs:
             outs.append(o)
-    how = rng.choice(["cat", "stack", "together"]) if len(outs) > 1 else "single"
+    how = rng.choice(["cat", "cat", "stack", "stack", "together"]) if len(outs) > 1 else "single"
+    if how in ("cat", "stack") and rng.random() < 0.5:
+        outs = outs[::-1]
     if how in ("cat", "stack"):
         outs = [new(how, outs, S, axis=rng.randrange(rank))]
     prog, used = prune(prog, outs)
@@ -433,7 +523,7 @@ def _shape_chunks(rng):
 def search(ctx, kinds_all):
     rng = ctx.rng
     t0 = time.time()
-    budget = ctx.scale(10, 150)
+    budget = ctx.scale(8, 45)
     kinds = ["default_rng", "RandomState", "module", rng.choice(["PCG64", "MT19937", "Philox", "SFC64"])]
     # quick: T1 for every (kind, distribution), and 4 of the 9 other templates per pair (rotating, so every template meets every
     # distribution for some kind); thorough: the full product over all seven generator kinds
